@@ -363,7 +363,7 @@ def exRules : Rules :=
 example : lookupSampler exRules (ascii "prod") = some { kind := .dyn, rate := 5, fields := [ascii "f1", ascii "root.f2"] } := by decide
 example : (lookupSampler exRules (ascii "staging")).map (·.rate) = some 2 := by decide
 example : ingestFields exRules [] kEnvIngest (ascii "prod") (ascii "ds1") = some [ascii "f2", ascii "f1"] := by decide
-example : keyFields [[]] = none := by decide
+example : keyFields [[]] = some ([], []) := by decide
 -- a field that is not an id field is read back although ingestion selected nothing of the sort
 example : (memoize [ascii "f1"] (extract [ascii "trace.trace_id"] [ascii "trace.parent_id"] [ascii "zz"]
     [(ascii "trace.trace_id", .str (ascii "t1")), (ascii "f1", .int 7)])).get (ascii "f1") = some (.int 7) := by decide
